@@ -54,7 +54,7 @@ func c07Gen(t *rapid.T, r *h.Rec) c07Case {
 		c.Profile = "types"
 		o := &synth.Opts{Avoid: av, OnExclude: onEx, OnClass: onCl,
 			Pointers: true, Unions: 2, SubPkgs: true, Generics: true, Aliases: true, Recursion: true, Embedded: true, StdTypes: true,
-			EnumStress: true, FixedArrays: true, Maps: true, Times: true, TagVariety: true, MaxDecls: 12, MinDecls: 4, ManySubPkgs: true}
+			EnumStress: true, FixedArrays: true, Maps: true, Times: true, TagVariety: true, MaxDecls: 12, MinDecls: 4, ManySubPkgs: true, SameNamePkgs: true}
 		c.Spec = synth.GenTypes(t, o)
 	}
 	return c
@@ -325,7 +325,7 @@ func c07Routes(c c07Case, r *h.Rec, R int) error {
 
 func TestC07(t *testing.T) {
 	h.Main(t, h.Prop[c07Case]{
-		ID: "C07",
+		ID: "C07", ConfirmTries: 12,
 		Rule: "rapid programs of the types profile (>= 1 union, several imported user packages, generics, aliases), the sql profile (with directives) and the routes profile; each is analysed and generated 8 times in one process (half on a shared load, half on fresh loads) for gounions, randdata, sqlcrud (sets on/off), sql, typescript types, dart (all files) or the Axios client, comparing every output text and the set of output files; 1 program in 40 is also run three times through the real CLI (go build of cmd, -config mode with a _dart entry, PATH holding only `go`) as separate processes, comparing every written file; " +
 			"non-trivial = a program with >= 2 non-root packages, >= 2 unions, a sql model or a route file; distinct by SHA-256 of the source",
 		Assumes: []string{
